@@ -6,7 +6,8 @@ RULE = ("random curves (polynomial/rational, degree 0..3, scalar/vector) paired 
         "refined+elevated copies, perturbed copies (first / last / middle control point, one weight; perturbation 1/1000 or larger), rational "
         "descriptions of the same function (weights scaled, polynomial curve with constant weights), unrelated curves, curves on other intervals, "
         "non-curves; both operand orders, == and !=.  Non-trivial: an interior knot or degree >= 2; distinct = distinct (A, B)."
-        " Also: shared knots with raised multiplicities, perturbations of 1e-6 and 1e-7 (absolute), equal weight tuples on different knot vectors.")
+        " Also: shared knots with raised multiplicities, perturbations of 1e-6 and 1e-7 (absolute), equal weight tuples on different knot vectors; operands with a history (used in ==/arithmetic, lossily cleaned with tolerances 1e-1..1e-5 "
+        "that are accepted or refused, a control point changed in place) against the state before and against a fresh twin of the current state.")
 EXPLANATION = ("L3: the truth value of A == B is compared with `rf.eq` (Lean-decided equality of the span polynomials, cross-multiplied for "
                "rational curves); perturbations are far above 1e-9 or exactly zero so the tolerance band never decides.  L2: the same truth "
                "value vs the model of __eq__ (refinement to the union vector + 1e-9 comparison).")
@@ -30,6 +31,23 @@ def run_case(ctx, case):
         return
     B = (c["B"]["U"], [tuple(p) for p in c["B"]["P"]], c["B"]["W"])
     cb = make_curve(*B)
+    # what the operands went through before the comparison must not matter: only their current state does
+    for op in c.get("pre", []):
+        rec.count("prelude", op[0])
+        if op[0] == "use":
+            impl(lambda: (ca(ca.knotvector[0]), ca == cb, ca == ca, ca.fraction(), -ca))
+        elif op[0] == "lossy":
+            fn = {"knot_clean": lambda: ca.knot_clean(tolerance=float(op[2])), "degree_clean": lambda: ca.degree_clean(float(op[2])),
+                  "clean": lambda: ca.clean(float(op[2])), "degree_decrease": lambda: ca.degree_decrease(1, float(op[2]))}[op[1]]
+            r_ = impl(fn)
+            rec.count("prelude-outcome", op[1] + "-" + errkind(r_))
+        elif op[0] == "poke":
+            pts = ca.ctrlpoints
+            q = pts[int(op[1]) % len(pts)]
+            if isinstance(q, np.ndarray):
+                q[0] = q[0] + op[2]          # in place, through the object the getter hands out
+    sa = curve_state(ca)
+    A = (list(sa[0]), [tuple(q) for q in sa[1]], None if sa[2] is None else list(sa[2]))
     sb = curve_state(cb)
     rec.case(case, nontrivial=nontrivial_kv(A[0]) or nontrivial_kv(B[0]))
     same_interval = (A[0][0], A[0][-1]) == (B[0][0], B[0][-1])
@@ -56,6 +74,14 @@ def run_case(ctx, case):
                           oracle=ser(v) if same_interval else "different intervals")
         if rn[0] != "ok" or bool(rn[1]) == bool(r[1]):
             rec.violation("!= is not the negation of ==", case, observed=str((r, rn)))
+    if c.get("pre"):
+        twin = make_curve(*A)
+        for name, x, y in (("A==twin", ca, twin), ("twin==A", twin, ca)):
+            r = impl(lambda: x == y)
+            if r[0] != "ok" or not bool(r[1]):
+                rec.violation("%s is not True for a curve built afresh from A's current knot vector, points and weights (history: %s)"
+                              % (name, [o[0] for o in c["pre"]]), case, observed=str(r), state=ser(sa))
+                break
     r = impl(lambda: ca == ca)
     if r != ("ok", True) and not (r[0] == "ok" and bool(r[1])):
         rec.violation("== is not reflexive", case, observed=str(r))
@@ -118,6 +144,18 @@ def run(ctx):
     run_case(ctx, ser(dict(kind="pair", label="perturbed", A=A, B=dict(U=[F(0), F(0), F(1, 2), F(1), F(1)], P=[(F(1),), (F(3, 2),), (F(3),)], W=None))))
     run_case(ctx, ser(dict(kind="pair", label="perturbed", A=dict(U=U, P=A["P"], W=[F(1), F(2)]), B=dict(U=U, P=A["P"], W=[F(1), F(3)]))))
     run_case(ctx, ser(dict(kind="noncurve", label="noncurve", A=A)))
+    for i in range(budget(ctx, 24, 300)):
+        # history independence: rational (and polynomial) operands that were used, lossily cleaned with a tolerance that may or may not
+        # be accepted, or had a control point changed in place, compared with a curve built afresh from their current state / from the
+        # state before
+        U, P, W = rand_curve(rng, pmax=2, nintmax=2, weights=rng.choice(["pos", "pos", "none"]), dim=rng.choice([1, 2]))
+        pre = [("use",)] if rng.random() < 0.7 else []
+        for _ in range(rng.randint(1, 2)):
+            if rng.random() < 0.7:
+                pre.append(("lossy", rng.choice(["knot_clean", "degree_clean", "clean", "degree_decrease"]), F(1, 10 ** rng.randint(1, 5))))
+            else:
+                pre.append(("poke", rng.randint(0, 5), F(rng.randint(1, 3), rng.randint(1, 4))))
+        run_case(ctx, ser(dict(kind="pair", label="history", A=dict(U=U, P=P, W=W), B=dict(U=U, P=P, W=W), pre=pre)))
     labels = ["refined", "elevated", "refined+elevated", "perturbed", "perturbed-refined", "scaled-weights", "const-weights",
               "raised", "raised", "perturbed-raised",
               "unrelated", "interval", "same", "shared-weights", "shared-weights", "unrelated-rational"]
